@@ -5,7 +5,7 @@ from props.base import *
 PID = "C06"
 RULE = ("select/var_select/restrict/var_restrict/var_pick/var_pick_random/pick/pick_random: every function of <=3 variables (sampled in the "
         "quick tier) x every partial assignment in random literal order (repeated variables: last literal wins) x every variable subset "
-        "(pick: subsets only, as the property states) x enumerated RNG scripts; random operands over 4..8 variables incl. non-canonical. "
+        "(pick: subsets only, as the property states) x enumerated RNG scripts; random operands over 4..8 variables incl. non-canonical; pick / pick_random over lists of 33..130 distinct variables. "
         "relation: canon(impl)=canon(model). non-trivial = operand >=3 nodes and non-empty literal/variable list")
 
 
@@ -80,6 +80,22 @@ def programs(rng, tier):
             P.add(["pick", bdd_sx(a), V_])
         elif k < 0.9:
             P.add(["var_pick", bdd_sx(a), str(rng.choice(pool))])
+        else:
+            P.add(["pick_random", bdd_sx(a), V_, "v" + "".join(rng.choice("01") for _ in range(len(xs)))])
+    # pick lists of MORE than 32 (64) distinct variables: functions of 3..6 supported variables over 33..130 variables, picked
+    # over (almost) all variables, in sorted and shuffled order
+    for _ in range(40 if tier == "quick" else 1500):
+        nv = rng.choice([33, 34, 40, 48, 64, 65, 66, 70, 100, 130])
+        sup = sorted(rng.sample(range(nv), rng.randrange(3, 7)))
+        a = bdd_from_tt(nv, sup, [rng.random() < 0.6 for _ in range(1 << len(sup))])
+        xs = [x for x in range(nv) if rng.random() < 0.97]
+        if rng.random() < 0.3:
+            xs = list(range(nv))
+        if rng.random() < 0.5:
+            rng.shuffle(xs)
+        V_ = ["L"] + [str(x) for x in xs]
+        if rng.random() < 0.75:
+            P.add(["pick", bdd_sx(a), V_])
         else:
             P.add(["pick_random", bdd_sx(a), V_, "v" + "".join(rng.choice("01") for _ in range(len(xs)))])
     return P.progs
